@@ -128,6 +128,7 @@ public:
 	size_t max_reads = 20000, max_bytes = 1u << 20;
 	uint32_t nblocks_hint = 2, nstrings = 3; // values that make sense for REF / STRIDX alphabets
 	uint32_t ref_default = NIF_NPOS;		 // default answer for references
+	std::vector<uint32_t> ref_cycle; // when non-empty: REF reads return these targets in turn (no alternatives)
 	int vdesc_set = 0; // 0: single-block set (incl. degenerate descriptors); 1: skinned well-formed set; 2: unskinned well-formed set (linked chains)
 
 	// --- results ---
@@ -143,6 +144,7 @@ public:
 
 	void announce(int kind, size_t width, const void* site) { pend = {kind, width, site, true}; }
 
+	static inline bool no_ref_alts = false; // set while a tape with ref_cycle is active
 	static size_t nalts(int kind, size_t width, bool wide, bool tag_refs) {
 		switch (kind) {
 			case K::K_BOOL: return 2;
@@ -156,7 +158,7 @@ public:
 				if (width == 8) return wide ? 5 : 3;
 				return 1;
 			case K::K_FLOAT: return width == 4 ? 3 : 1;
-			case K::K_REF: return tag_refs ? 1 : 3;
+			case K::K_REF: return (tag_refs || no_ref_alts) ? 1 : 3;
 			case K::K_STRIDX: return tag_refs ? 1 : (wide ? 4 : 3);
 			default: return 1;
 		}
@@ -207,7 +209,8 @@ public:
 				return;
 			}
 			case K::K_REF:
-				if (tag_refs) v = 1000 + tag_k++;
+				if (!ref_cycle.empty()) v = ref_cycle[tag_k++ % ref_cycle.size()];
+				else if (tag_refs) v = 1000 + tag_k++;
 				else { const uint64_t a[] = {ref_default, 0, 1}; v = a[alt]; }
 				break;
 			case K::K_STRIDX:
